@@ -1,24 +1,46 @@
 #!/usr/bin/env python3
-"""Apply a seeded change to /repo, run the given checks, undo the change.
-usage: tools/seedcheck.py <patch.diff> C01 [C02 ...] [--tier quick]
+"""Run checks against a seeded change.
+usage: tools/seedcheck.py <patch.diff> C01 [C02 ...] [--tier quick] [--inplace]
+default: the patch is applied in a scratch worktree of /repo HEAD (under /tmp, removed afterwards) and the checks
+  run with PVL_REPO=<scratch> SYMX_OUT=<scratch out dir>, so /repo and the committed evidence stay untouched and
+  several seeds can be tried at once;
+--inplace: git -C /repo apply <patch>, run, git -C /repo checkout -- .  (the procedure of the brief; evidence
+  files are rewritten and must be regenerated on the clean tree afterwards).
 prints, per check: exit status and number of VIOLATION lines."""
-import subprocess, sys, os
+import subprocess, sys, os, tempfile, shutil
 V = os.path.dirname(os.path.dirname(os.path.abspath(__file__)))
 patch = os.path.abspath(sys.argv[1])
-props = [a for a in sys.argv[2:] if not a.startswith('--')]
+props = [a for a in sys.argv[2:] if not a.startswith('--') and a not in ('quick', 'thorough')]
 tier = 'quick'
 if '--tier' in sys.argv:
     tier = sys.argv[sys.argv.index('--tier') + 1]
-assert subprocess.run(['git', '-C', '/repo', 'status', '--porcelain', '--untracked-files=no'], capture_output=True, text=True).stdout.strip() == '', '/repo is dirty'
-subprocess.run(['git', '-C', '/repo', 'apply', patch], check=True)
+inplace = '--inplace' in sys.argv
+env = dict(os.environ)
+if inplace:
+    assert subprocess.run(['git', '-C', '/repo', 'status', '--porcelain', '--untracked-files=no'], capture_output=True, text=True).stdout.strip() == '', '/repo is dirty'
+    subprocess.run(['git', '-C', '/repo', 'apply', patch], check=True)
+else:
+    wt = tempfile.mkdtemp(prefix='seedck_')
+    os.rmdir(wt)
+    out = tempfile.mkdtemp(prefix='seedout_')
+    subprocess.run(['git', '-C', '/repo', 'worktree', 'add', '--detach', wt, 'HEAD'], check=True, capture_output=True)
+    subprocess.run(['git', '-C', wt, 'apply', patch], check=True)
+    env.update(PVL_REPO=wt, SYMX_OUT=out)
 try:
     for p in props:
-        r = subprocess.run([os.path.join(V, 'run.py'), p, '--tier', tier], capture_output=True, text=True, cwd=V)
+        r = subprocess.run([os.path.join(V, 'run.py'), p, '--tier', tier], capture_output=True, text=True, cwd=V, env=env)
         viol = [l for l in r.stdout.splitlines() if l.startswith('VIOLATION')]
         herr = [l for l in r.stdout.splitlines() if l.startswith('HARNESS-ERROR')]
-        print('%s exit=%d violations=%d harness_errors=%d  %s' % (p, r.returncode, len(viol), len(herr), r.stdout.strip().splitlines()[-1][:150] if r.stdout.strip() else ''))
+        print('%s exit=%d violations=%d harness_errors=%d  %s' % (p, r.returncode, len(viol), len(herr), r.stdout.strip().splitlines()[-1][:150] if r.stdout.strip() else r.stderr[-300:]))
         for l in r.stdout.splitlines():
             if l.startswith('  obligation'):
                 print('   ', l[:300]); break
+        for l in herr[:2]:
+            print('   ', l[:300])
 finally:
-    subprocess.run(['git', '-C', '/repo', 'checkout', '--', '.'], check=True)
+    if inplace:
+        subprocess.run(['git', '-C', '/repo', 'checkout', '--', '.'], check=True)
+    else:
+        subprocess.run(['git', '-C', '/repo', 'worktree', 'remove', '--force', wt])
+        shutil.rmtree(wt, ignore_errors=True)
+        shutil.rmtree(out, ignore_errors=True)
